@@ -31,6 +31,18 @@ package bfe_server
 //   - when everything finished ("end": all zero);
 // and ConnNum() >= 0 whenever the forward filter is called. Nothing is judged about the
 // window between balancing and RoundTrip (statement silent about when "assigned" starts).
+//
+// Module verdicts at the OTHER callback points of the request path ("points" / "pseq"
+// families): a test filter is registered on every C07 server at HandleBeforeLocation,
+// HandleFoundProduct, HandleAfterLocation (request filters), HandleReadResponse and
+// HandleRequestFinish (response filters). In these families every call of every one of them
+// asks the enumeration for its verdict, over all verdicts the callback framework accepts at
+// that point (request points: goon, close, finish, redirect, response; ReadResponse: goon,
+// finish, redirect, thorough + response; RequestFinish: goon, finish, thorough + redirect),
+// enumerated TOGETHER with the forward verdicts and transport answers above, for proxied,
+// retried, failed and never-proxied requests. Same model and oracle: whatever the verdicts,
+// every backend's count equals the in-flight count and is 0 when the request is over. In all
+// other families these filters answer GoOn without consuming a choice.
 
 import (
 	"fmt"
@@ -62,6 +74,55 @@ var c07verdictsT = []string{"goon", "finish", "change-next", "change-prev", "oth
 
 var c07backendNames = []string{"b1", "b2", "b3"}
 
+// callback points other than HandleForward, in the order bfe calls them
+type c07point struct {
+	id   int
+	name string
+	resp bool // response filter (req, res) int; else request filter (req) (int, *Response)
+}
+
+var c07points = []c07point{
+	{bfe_module.HandleBeforeLocation, "beforelocation", false},
+	{bfe_module.HandleFoundProduct, "foundproduct", false},
+	{bfe_module.HandleAfterLocation, "afterlocation", false},
+	{bfe_module.HandleReadResponse, "readresponse", true},
+	{bfe_module.HandleRequestFinish, "requestfinish", true},
+}
+
+// c07pointVerdicts returns the verdict alphabet of a point at a level (0 = filters silent).
+func c07pointVerdicts(level int, name string) []string {
+	if level <= 0 {
+		return nil
+	}
+	switch name {
+	case "readresponse":
+		if level >= 2 {
+			return []string{"goon", "finish", "redirect", "response"}
+		}
+		return []string{"goon", "finish", "redirect"}
+	case "requestfinish":
+		if level >= 2 {
+			return []string{"goon", "finish", "redirect"}
+		}
+		return []string{"goon", "finish"}
+	}
+	return []string{"goon", "close", "finish", "redirect", "response"}
+}
+
+func c07bfeVerdict(v string) int {
+	switch v {
+	case "close":
+		return bfe_module.BfeHandlerClose
+	case "finish":
+		return bfe_module.BfeHandlerFinish
+	case "redirect":
+		return bfe_module.BfeHandlerRedirect
+	case "response":
+		return bfe_module.BfeHandlerResponse
+	}
+	return bfe_module.BfeHandlerGoOn
+}
+
 func c07spec(m, c, rl int) h1spec {
 	return h1spec{Host: "example.org", Clusters: []h1cluster{{
 		Name: "c1",
@@ -79,7 +140,7 @@ func c07spec(m, c, rl int) h1spec {
 // ---- families -------------------------------------------------------------------------------
 
 type c07family struct {
-	kind     string // one | avail | seq | conc
+	kind     string // one | avail | seq | conc | points | pseq
 	m, c, rl int
 	mode     string // WRR | WLC
 	avail    int    // bit i set = backend c07backendNames[i] available
@@ -88,9 +149,13 @@ type c07family struct {
 	verdicts []string
 	parkAt   int  // conc: attempt of request a that parks inside RoundTrip
 	big      bool // explored by all shards (sub-tree sharding) instead of one
+	late     int  // points/pseq: level of the verdict alphabets at the non-forward callback points
 }
 
 func (f *c07family) name() string {
+	if f.late > 0 {
+		return fmt.Sprintf("%s/m%dc%dr%d/%s/av%d/%s/A%dV%dL%d/p%d", f.kind, f.m, f.c, f.rl, f.mode, f.avail, f.method, len(f.answers), len(f.verdicts), f.late, f.parkAt)
+	}
 	return fmt.Sprintf("%s/m%dc%dr%d/%s/av%d/%s/A%dV%d/p%d", f.kind, f.m, f.c, f.rl, f.mode, f.avail, f.method, len(f.answers), len(f.verdicts), f.parkAt)
 }
 
@@ -112,6 +177,34 @@ func c07families(thorough bool) []*c07family {
 		}
 		fs = append(fs, &c07family{kind: "one", m: mc[0], c: mc[1], rl: 1, mode: "WRR", avail: 7, method: "POST",
 			answers: c07answersFull, verdicts: V})
+	}
+	// module verdicts at every other callback point of the request path, enumerated together
+	// with forward verdicts and transport answers
+	lvl := 1
+	if thorough {
+		lvl = 2
+	}
+	for _, mode := range []string{"WRR", "WLC"} {
+		for _, mc := range c07retryConfs {
+			for rl := 0; rl <= 1; rl++ {
+				att := mc[0] + mc[1] + 1
+				A := c07answersRed
+				if att <= 2 || (thorough && att <= 3) {
+					A = c07answersFull
+				}
+				fs = append(fs, &c07family{kind: "points", m: mc[0], c: mc[1], rl: rl, mode: mode, avail: 7, method: "GET",
+					answers: A, verdicts: c07verdictsQ, late: lvl, big: rl == 1 && att >= 3 && len(A) == len(c07answersFull)})
+			}
+		}
+		// two sequential requests (counters not reset in between)
+		pseq := [][3]int{{0, 0, 0}}
+		if thorough {
+			pseq = [][3]int{{0, 0, 0}, {0, 0, 1}, {1, 0, 0}, {0, 1, 0}, {1, 0, 1}}
+		}
+		for _, x := range pseq {
+			fs = append(fs, &c07family{kind: "pseq", m: x[0], c: x[1], rl: x[2], mode: mode, avail: 7, method: "GET",
+				answers: c07answersRed, verdicts: c07verdictsQ, late: 1, big: x[2] == 1 && x[0]+x[1] >= 1})
+		}
 	}
 	// availability patterns x balance mode
 	for av := 0; av < 8; av++ {
@@ -138,7 +231,10 @@ func c07families(thorough bool) []*c07family {
 			for rl := 0; rl <= 1; rl++ {
 				att := mc[0] + mc[1] + 1
 				if !thorough && att == 3 && rl == 1 {
-					continue // 211^2 executions per family: thorough only
+					continue // 431^2 executions per family: thorough only
+				}
+				if att == 4 && rl == 1 {
+					continue // 2591^2 executions per family: beyond the thorough budget
 				}
 				A := c07answersRed
 				if thorough && att <= 2 {
@@ -149,7 +245,7 @@ func c07families(thorough bool) []*c07family {
 					answers: A, verdicts: c07verdictsQ, big: big})
 				fs = append(fs, &c07family{kind: "conc", m: mc[0], c: mc[1], rl: rl, mode: mode, avail: 7, method: "GET",
 					answers: A, verdicts: c07verdictsQ, parkAt: 1, big: big})
-				if thorough && att >= 2 {
+				if thorough && att >= 2 && !(att >= 3 && rl == 1) {
 					fs = append(fs, &c07family{kind: "conc", m: mc[0], c: mc[1], rl: rl, mode: mode, avail: 7, method: "GET",
 						answers: A, verdicts: c07verdictsQ, parkAt: 2, big: big})
 				}
@@ -169,6 +265,7 @@ type c07req struct {
 	changed   bool // a forward filter replaced the backend
 	answers   []string
 	completed bool
+	late      string // last non-goon verdict at a non-forward callback point: "<point>-<verdict>"
 }
 
 // class of a request = the input feature that most specifically characterises its history
@@ -178,6 +275,9 @@ func (q *c07req) class() string {
 	}
 	if q.finished { // always the last event of a request
 		return "forward-finish"
+	}
+	if q.late != "" {
+		return q.late
 	}
 	if n := len(q.answers); n > 0 && q.answers[n-1] == "fcgi-write" {
 		return "fcgi-write-error"
@@ -335,6 +435,53 @@ func c07forwardFilter(req *bfe_basic.Request) int {
 		return bfe_module.BfeHandlerRedirect // not honoured at the forward point
 	}
 	return bfe_module.BfeHandlerGoOn
+}
+
+// c07pointFilter builds the filter registered at a non-forward callback point.
+func c07pointFilter(pt c07point) interface{} {
+	decide := func(req *bfe_basic.Request) (string, *c07world) {
+		w := c07cur
+		if w == nil || req == nil || req.HttpRequest == nil || req.HttpRequest.URL == nil {
+			return "goon", nil
+		}
+		alpha := c07pointVerdicts(w.fam.late, pt.name)
+		if len(alpha) == 0 {
+			return "goon", nil // silent in this family: no choice consumed
+		}
+		w.mu.Lock()
+		defer w.mu.Unlock()
+		q := w.req(c07tag(req.HttpRequest.URL.Path))
+		w.checkNonNegative("in-"+pt.name+"-filter", q)
+		v := w.choose(alpha)
+		w.events = append(w.events, fmt.Sprintf("%s: %s filter answers %s", q.tag, pt.name, v))
+		if v != "goon" {
+			q.late = pt.name + "-" + v
+		}
+		if v == "redirect" {
+			req.Redirect.Url = "http://r.example/moved"
+			req.Redirect.Code = 302
+			req.Redirect.Header = nil
+		}
+		return v, w
+	}
+	if pt.resp {
+		return func(req *bfe_basic.Request, res *bfe_http.Response) int {
+			v, _ := decide(req)
+			return c07bfeVerdict(v)
+		}
+	}
+	return func(req *bfe_basic.Request) (int, *bfe_http.Response) {
+		v, _ := decide(req)
+		if v == "response" {
+			res := new(bfe_http.Response)
+			res.StatusCode = 403
+			res.Header = make(bfe_http.Header)
+			res.Header.Set("Content-Length", "4")
+			res.Body = io.NopCloser(strings.NewReader("deny"))
+			return c07bfeVerdict(v), res
+		}
+		return c07bfeVerdict(v), nil
+	}
 }
 
 // c07body is the backend response body; the first Read samples the counters ("in-response").
@@ -496,6 +643,9 @@ func (w *c07world) completed(tag string, c *c07conn) string {
 	if status == "no-response" {
 		oc += "/conn-closed"
 	}
+	if q.late != "" {
+		oc += "/" + q.late
+	}
 	if np > 0 {
 		oc += "/panic"
 	}
@@ -572,11 +722,11 @@ func c07exec(t *testing.T, srv *BfeServer, f *c07family, ch *vk.Chooser) c07resu
 			return w.viol != nil || w.harnessErr != "" || ch.Skipped
 		}
 		switch f.kind {
-		case "one", "avail":
+		case "one", "avail", "points":
 			c := w.open()
 			c.send(w.requestBytes("a"))
 			res.outcomes = append(res.outcomes, w.completed("a", c))
-		case "seq":
+		case "seq", "pseq":
 			c := w.open()
 			c.send(w.requestBytes("a"))
 			res.outcomes = append(res.outcomes, w.completed("a", c))
@@ -690,10 +840,15 @@ func TestVerifC07(t *testing.T) {
 		if err := s.CallBacks.AddFilter(bfe_module.HandleForward, c07forwardFilter); err != nil {
 			t.Fatalf("c07: AddFilter: %v", err)
 		}
+		for _, pt := range c07points {
+			if err := s.CallBacks.AddFilter(pt.id, c07pointFilter(pt)); err != nil {
+				t.Fatalf("c07: AddFilter(%s): %v", pt.name, err)
+			}
+		}
 		servers[k] = s
 		return s
 	}
-	r.Set("bounds", fmt.Sprintf("families=%d (one: 6 retry settings x RetryLevel 0..1 x GET + POST, %d answers x %d verdicts; avail: 8 patterns x WRR/WLC x 12 settings; seq/conc: 2 requests); max attempts per request 4",
+	r.Set("bounds", fmt.Sprintf("families=%d (one: 6 retry settings x RetryLevel 0..1 x GET + POST, %d answers x %d verdicts; avail: 8 patterns x WRR/WLC x 12 settings; seq/conc: 2 requests; points/pseq: verdict alphabets at 5 more callback points); max attempts per request 4",
 		len(fams), len(c07answersFull), len(c07verdictsQ)+2*r.Pick(0, 1)))
 	complete := true
 	var samples int
